@@ -187,6 +187,27 @@ fn label_in_text(l: &Label, text: &str, file: &str) -> Result<(), String> {
     if s > e || e > text.len() || !text.is_char_boundary(s) || !text.is_char_boundary(e) {
         return Err(format!("label {}..{} is not a char-boundary range of the file (len {})", s, e, text.len()));
     }
+    label_on_word_boundaries(s, e, text)
+}
+
+/// A label covers "the spelling of the construct the message talks about": whatever the construct
+/// is, it is made of whole lexemes, so a (non-empty) label neither starts nor ends in the middle of
+/// a word (identifier, keyword, number) - a span counted in another unit than bytes, or taken
+/// from a neighbouring position, almost always does
+fn label_on_word_boundaries(s: usize, e: usize, text: &str) -> Result<(), String> {
+    if s == e {
+        return Ok(());
+    }
+    let b = text.as_bytes();
+    let word = |c: u8| c.is_ascii_alphanumeric() || c == b'_';
+    if s > 0 && word(b[s - 1]) && word(b[s]) {
+        let from = s.saturating_sub(12);
+        return Err(format!("label {}..{} starts in the middle of the word {:?}", s, e, String::from_utf8_lossy(&b[from..(s + 12).min(b.len())])));
+    }
+    if e < b.len() && word(b[e - 1]) && word(b[e]) {
+        let from = e.saturating_sub(12);
+        return Err(format!("label {}..{} ends in the middle of the word {:?}", s, e, String::from_utf8_lossy(&b[from..(e + 12).min(b.len())])));
+    }
     Ok(())
 }
 
@@ -694,6 +715,7 @@ pub fn check_clash_labels(files: &[(String, String)], name: &str) -> Result<bool
             if s > e || e > text.len() || !text.is_char_boundary(s) || !text.is_char_boundary(e) {
                 return Err(("clash-label-range".into(), format!("{}: the {} label {}..{} is not a range of {:?} ({} bytes)", d.code, which, s, e, fname, text.len())));
             }
+            label_on_word_boundaries(s, e, text).map_err(|m| ("clash-label-range".to_string(), format!("{}: {} label: {}", d.code, which, m)))?;
             if d.code == "P0019" || d.code == "P0020" {
                 if !text[s..e].eq_ignore_ascii_case(name) {
                     return Err(("clash-label-text".into(), format!("{}: the {} label {}..{} of {:?} covers {:?}, the duplicated name is {:?}", d.code, which, s, e, fname, &text[s..e], name)));
